@@ -130,9 +130,9 @@ def run_table(spec, b, client, w):
     nreq_total = 0
     for variant, bulk in variants:
         ag = ragent.Agent(db)
-        client.sender.handle = ag.handle
-        client.sender.calls = []
-        client.sender.limit = len(db) + 6
+        world.sender_of(client).handle = ag.handle
+        world.sender_of(client).calls = []
+        world.sender_of(client).limit = len(db) + 6
         facts = {"db": sorted(db), "table": T, "variant": variant, "bulk": bulk, "shape": spec[0]}
         try:
             if variant == "table":
@@ -178,9 +178,9 @@ def run_large(acc, tier):
         want = expected_rows(db, ENTRY)
         for variant, bulk in (("table", None), ("bulktable", 1), ("bulktable", 10), ("bulktable", 33), ("bulktable", 200)):
             ag = ragent.Agent(db)
-            client.sender.handle = ag.handle
-            client.sender.calls = []
-            client.sender.limit = len(db) + 10
+            world.sender_of(client).handle = ag.handle
+            world.sender_of(client).calls = []
+            world.sender_of(client).limit = len(db) + 10
             try:
                 got, exc = ops.run_op(client, ("table", ENTRY) if variant == "table" else ("bulktable", T, bulk))
             except world.Horizon as hz:
@@ -214,8 +214,8 @@ def run_two_clients(acc):
         for variant, bulk in (("bulktable", 10), ("bulktable", 2), ("table", None), ("bulkwalk", 10)):
             for d, (T, ENTRY, db, ag, client) in enumerate(devices):
                 del ag.log[:]
-                client.sender.calls = []
-                client.sender.limit = len(db) + 10
+                world.sender_of(client).calls = []
+                world.sender_of(client).limit = len(db) + 10
                 try:
                     if variant == "bulkwalk":
                         got, exc = ops.run_op(client, ("bulkwalk", [ENTRY], bulk))
